@@ -5,6 +5,7 @@ mod report;
 mod util;
 
 mod bringup;
+mod c03;
 mod c10;
 mod dec;
 
@@ -53,6 +54,7 @@ fn main() {
     let args = Args { id: id.clone(), tier, replay, rest };
     // A panic inside the *machinery* (not inside a guarded call into the subject) is a machinery failure.
     let r = std::panic::catch_unwind(|| match id.as_str() {
+        "C03" => c03::main(&args),
         "C10" => c10::main(&args),
         "bringup" => bringup::main(&args),
         _ => {
